@@ -30,7 +30,7 @@ RULE = (
 ASSUMPTIONS = ["the user posterior is deterministic; recorded values are compared at 1e-12 relative (L * (1/T) versus L / T)"]
 TIMEOUT = {"quick": 400, "thorough": 2400}
 REQUIRED = {"rows_rederived": 20000, "programs": 60, "cases:tempered": 20, "cases:bounded": 20, "twin_pairs": 15,
-            "mode_checks": 60, "tempering_runs": 8, "exchanged_points_checked": 10, "reloads": 10, "ensemble:failed_updates": 100, "interrupted_calls": 15, "own_generator_pairs": 30, "tempering_runs_with_late_replies": 8}
+            "mode_checks": 60, "tempering_runs": 8, "exchanged_points_checked": 10, "reloads": 10, "ensemble:failed_updates": 100, "interrupted_calls": 15, "own_generator_pairs": 30, "tempering_runs_with_late_replies": 8, "pools_of_replicas": 8}
 
 
 def jobs(tier, seed):
@@ -415,6 +415,64 @@ def run_job(job, rec):
         n_ = min(len(sc_), len(sa))
         rec.check(n_ < 3 or not np.array_equal(sc_[1:n_], sa[1:n_]), "samplers-share-state",
                   lambda: f"{kind}: two samplers built from the same inputs produce identical trajectories", ctx)
+
+    # ------------------------------------------------ replicas built from the same arrays and advanced together in a pool of worker processes
+    from inference.mcmc import ChainPool
+
+    for c in range(job.get("n_pool", 1)):
+        kind = ["hmc", "pca", "gibbs", "ensemble"][(c + job["j"]) % 4]
+        d = int(rng.choice([1, 2]))
+        tkind, target = _make_target(rng, d)
+        n_rep = int(rng.choice([5, 8]))
+        ctx = {"pool_of_replicas": c, "kind": kind, "d": d, "target": tkind, "replicas": n_rep}
+        rec.context = ctx
+        try:
+            first, inputs = build(kind, target, tkind, d, rng, 1.0, False, int(rng.integers(2**31)))
+            reps = [first] + [build(kind, target, tkind, d, rng, 1.0, False, int(rng.integers(2**31)), shared=inputs)[0] for _ in range(n_rep - 1)]
+        except Exception as exc:  # noqa: BLE001
+            rec.violation("raised", f"{kind}: construction raised {exc!r}", ctx)
+            continue
+        snaps = {k: snapshot(v) for k, v in inputs.items() if isinstance(v, np.ndarray)}
+        pool = guarded(ChainPool, reps)
+        if isinstance(pool, Raised):
+            rec.violation("raised", f"ChainPool construction raised {pool!r}", ctx)
+            continue
+        try:
+            ok_run = True
+            for rnd in range(int(rng.integers(3, 7))):
+                before_len = [0 if (kind == "ensemble" and getattr(ch, "sample", None) is None) else int(mc.full_readout(ch)[0].shape[0]) for ch in pool.chains]
+                r = guarded(pool.advance, int(rng.integers(2, 5)))     # (short advances: one worker serves several replicas)
+                if isinstance(r, Raised):
+                    rec.violation("raised", f"{kind}: ChainPool.advance raised {r!r}", ctx)
+                    ok_run = False
+                    break
+                # what each replica added in this call: no two replicas (distinct generators) add the same points
+                seg = [mc.full_readout(ch)[0][b:] for ch, b in zip(pool.chains, before_len)]
+                twin = [(i, j) for i in range(n_rep) for j in range(i + 1, n_rep)
+                        if seg[i].shape == seg[j].shape and seg[i].shape[0] >= 2 and np.array_equal(seg[i], seg[j])]
+                rec.check(not twin, "samplers-share-state",
+                          lambda: f"{kind}: in call {rnd} of ChainPool.advance the replicas {twin[:3]} (built from the same inputs, own generators with different seeds) "
+                                  "added identical points", ctx)
+            if ok_run:
+                rec.count("pools_of_replicas")
+                outs = list(pool.chains)
+                traj = []
+                for ch in outs:
+                    got = check_rows(rec, ch, kind, target, 1.0, range(int(ch.chain_length)) if kind != "ensemble" else None, ctx, "after pool advances") \
+                        if kind != "ensemble" else None
+                    s_, p_ = mc.full_readout(ch)
+                    traj.append(s_)
+                same = [(i, j) for i in range(n_rep) for j in range(i + 1, n_rep)
+                        if traj[i].shape == traj[j].shape and traj[i].shape[0] >= 4 and np.array_equal(traj[i][2:], traj[j][2:])]
+                rec.check(not same, "samplers-share-state",
+                          lambda: f"{kind}: replicas {same[:3]} built from the same inputs (own generators, different seeds) and advanced in one ChainPool have identical trajectories", ctx)
+                rec.check(all(snapshot(inputs[k]) == snaps[k] for k in snaps), "input-arrays-modified",
+                          lambda: f"{kind}: input arrays changed by the pool run", ctx)
+        finally:
+            try:
+                pool.pool.terminate()
+            except Exception:
+                pass
 
     # ------------------------------------------------ tempering with workers that answer late and out of index order
     # (machinery shared with C08; only what C03 is about is reported here: every chain's record stays the record of its own points)
